@@ -108,7 +108,9 @@ pub struct XResult {
 /// state space that stopped being finite cannot keep the cross-check running for ever).
 pub fn run_indicator(cfg: &Cfg, alphabet: &[Op], refwin: usize, threads: usize, cap: usize) -> XResult {
     let m = IndModel { cfg: *cfg, alphabet: alphabet.to_vec(), refwin };
-    let c = m.checker().threads(threads).target_state_count(cap).spawn_bfs().join();
+    // stateright's target counts GENERATED states (every successor of every expanded state, duplicates
+    // included), the caller's cap is in unique states
+    let c = m.checker().threads(threads).target_state_count(cap.saturating_mul(alphabet.len() + 1)).spawn_bfs().join();
     XResult { unique_states: c.unique_state_count(), discoveries: c.discoveries().len(), max_depth: c.max_depth() }
 }
 
@@ -205,6 +207,7 @@ impl Model for LifeModel {
 pub fn run_lifecycle(cfg: &Cfg, alphabet: &[Op], threads: usize, cap: usize) -> XResult {
     let fresh_key = state_key(make(cfg).as_ref(), &[]);
     let m = LifeModel { cfg: *cfg, alphabet: alphabet.to_vec(), fresh_key };
-    let c = m.checker().threads(threads).target_state_count(cap).spawn_bfs().join();
+    // (generated states, see run_indicator)
+    let c = m.checker().threads(threads).target_state_count(cap.saturating_mul(alphabet.len() + 1)).spawn_bfs().join();
     XResult { unique_states: c.unique_state_count(), discoveries: c.discoveries().len(), max_depth: c.max_depth() }
 }
